@@ -20,7 +20,7 @@ TECHNIQUE = "TLA+ contract + TLC model checking; TLC-generated scenarios run on 
 SPEC = os.path.join(VERIF, "spec", "tasking")
 
 
-def run_driver(exe, scenarios, threads, tag, timeout=240):
+def run_driver(exe, scenarios, threads, tag, timeout=240, perturb=0):
     d = os.path.join(WORK, "run", tag)
     os.makedirs(d, exist_ok=True)
     inp = os.path.join(d, "sc-%d.ndjson" % os.getpid())
@@ -38,7 +38,10 @@ def run_driver(exe, scenarios, threads, tag, timeout=240):
                 s["id"] = i
                 f.write(json.dumps(s, separators=(",", ":")) + "\n")
         try:
-            p = subprocess.run([exe, "--in", inp, "--out", outp, "--threads", str(threads)], stdout=subprocess.PIPE, stderr=subprocess.STDOUT, timeout=timeout)
+            cmd = [exe, "--in", inp, "--out", outp, "--threads", str(threads)]
+            if perturb:
+                cmd += ["--perturb", str(perturb)]
+            p = subprocess.run(cmd, stdout=subprocess.PIPE, stderr=subprocess.STDOUT, timeout=timeout)
             rc = p.returncode
             err = p.stdout.decode(errors="replace")
         except subprocess.TimeoutExpired as ex:
@@ -125,17 +128,20 @@ def run(chk, replay=None):
     if quick:
         # all boundary scenarios of narrow types / blocks / nesting; thin out the big ones
         scen = [s for s in scen if not (s["n"] >= 1000 and s["cost"] == "skew" and rnd.random() < 0.6)]
-    plans = [("TBB", 4), ("OpenMP", 4), ("Internal", 4), ("Debug", 4), ("Internal", 2)]
+    # (backend, threads, perturbation seed): perturbation = seeded random delays at the guarded hook points of the
+    # Internal backend's scheduler (0 = none)
+    plans = [("TBB", 4, 0), ("OpenMP", 4, 0), ("Internal", 4, 0), ("Debug", 4, 0), ("Internal", 2, 0), ("Internal", 3, chk.seed * 7 + 1)]
     if not quick:
-        plans += [("Internal", 3), ("Internal", 8), ("Internal", 1), ("TBB", 2), ("TBB", 8), ("OpenMP", 2), ("TBB", 1)]
+        plans += [("Internal", 3, 0), ("Internal", 8, 0), ("Internal", 1, 0), ("TBB", 2, 0), ("TBB", 8, 0), ("OpenMP", 2, 0), ("TBB", 1, 0)]
+        plans += [("Internal", t, chk.seed * 100 + k) for k in range(1, 9) for t in (2, 4)]
     if os.environ.get("VERIF_C01_PLANS"):      # development aid: VERIF_C01_PLANS="Internal:4,TBB:2"
-        plans = [(x.split(":")[0], int(x.split(":")[1])) for x in os.environ["VERIF_C01_PLANS"].split(",")]
+        plans = [(x.split(":")[0], int(x.split(":")[1]), int((x.split(":") + ["0"])[2])) for x in os.environ["VERIF_C01_PLANS"].split(",")]
     total_events = 0
-    for backend, threads in plans:
+    for backend, threads, perturb in plans:
         exe = build.build("drv_par_for", backend=backend)
         mine = [s for s in scen if not (s.get("prefill") and backend == "Debug")]
         t0 = time.time()
-        res = run_driver(exe, mine, threads, "c01-%s-%d" % (backend, threads))
+        res = run_driver(exe, mine, threads, "c01-%s-%d" % (backend, threads), perturb=perturb)
         execs = []
         for i, s in enumerate(mine):
             if i not in res:
@@ -147,8 +153,8 @@ def run(chk, replay=None):
         chk.cov["traces_validated_against_impl"] += acc + len(rej)
         chk.cov["evaluations"] += len(mine)
         chk.cov["distinct_nontrivial"] += sum(1 for s in mine if s["n"] > 0)
-        chk.log("%s T=%d: %d scenarios executed in %.1fs, %d accepted / %d rejected by ParallelForTrace (%d events)"
-                % (backend, threads, len(mine), time.time() - t0, acc, len(rej), stats["events"]))
+        chk.log("%s T=%d%s: %d scenarios executed in %.1fs, %d accepted / %d rejected by ParallelForTrace (%d events)"
+                % (backend, threads, " perturbed(seed %d)" % perturb if perturb else "", len(mine), time.time() - t0, acc, len(rej), stats["events"]))
         for rj in rej:
             s = mine[rj["exec"]]
             evs = execs[rj["exec"]]
